@@ -83,11 +83,28 @@ def run(prog):
             return int({"Eq": va == vb, "Ne": va != vb, "Lt": va < vb, "Le": va <= vb, "Gt": va > vb, "Ge": va >= vb}[c[1]])
         return None
 
+    # inner loops over a fixed number of items (`for lit in [second, first] { .. }`): (header -> (iterator local, count))
+    fixed_loops = {}
+    for h2, body2 in cfg.loop_headers.items():
+        if h2 == header or h2 not in body:
+            continue
+        for (hh, l), init in te.mu_init.items():
+            if hh != h2:
+                continue
+            src = strip(init)
+            g_ = 0
+            while mir.is_call(src) and src[2] and src[1].name in ("into_iter", "iter", "iter_mut", "copied", "cloned") and g_ < 5:
+                src = strip(src[2][0])
+                g_ += 1
+            if src[0] == "agg" and src[1] == "array":
+                fixed_loops[h2] = (l, len(src[4]))
+
     def walk(n):
         results = []
 
-        def go(b, eff, seen, depth):
-            if depth > 80 or len(results) > 200:
+        def go(b, eff, seen, depth, iters=None):
+            iters = dict(iters or {})
+            if depth > 160 or len(results) > 200:
                 raise Und("path explosion")
             eff = list(eff)
             for cs in [c for c in te.calls if c.bb == b]:
@@ -122,6 +139,18 @@ def run(prog):
             if t["k"] == "switch":
                 c = te.switch_term[b][0]
                 v = cond_value(c, n)
+                # the `next()` of a fixed-size inner loop: Some for the first k visits, then None
+                c0 = strip(c)
+                if v is None and c0[0] == "discr" and mir.is_call(strip(c0[1]), "next"):
+                    itl = strip(strip(c0[1])[2][0])
+                    for h2, (l2, k2) in fixed_loops.items():
+                        if itl == ("mutref", l2):
+                            vm = te.switch_term[b][1] or {}
+                            some_lab = next((lab for lab, nm_ in vm.items() if nm_ == "Some"), "1")
+                            none_lab = next((lab for lab, nm_ in vm.items() if nm_ == "None"), "0")
+                            v = int(some_lab) if iters.get(h2, 0) < k2 else int(none_lab)
+                            if iters.get(h2, 0) < k2:
+                                iters[h2] = iters.get(h2, 0) + 1
                 if v is None and any((mir.is_call(x, "len") or mir.is_call(x, "is_empty") or (x[0] == "un" and x[1] == "PtrMetadata"))
                                      for x in mir.subterms(c)) and "next" in show(c):
                     raise Und("a test on the clause's length is not evaluated: %s" % show(c)[:60])
@@ -142,10 +171,15 @@ def run(prog):
                     rb = [x for x in cfg.reachable_from(s) if fn.blocks[x]["term"]["k"] == "return"]
                     direct = fn.blocks[s]["term"]["k"] in ("return", "goto", "drop") and len(cfg.reachable_from(s, avoid=())) <= 12
                     results.append((eff, "leave" if not direct else "return-path", s))
+                elif s in fixed_loops and s in seen:
+                    # back edge of a fixed-size inner loop: go round again (its body may be revisited)
+                    go(s, eff, (seen - cfg.loop_headers[s]) | {s}, depth + 1, iters)
                 elif s in seen:
+                    if s in cfg.loop_headers and s != header:
+                        raise Und("an inner loop whose number of iterations is not fixed")
                     continue
                 else:
-                    go(s, eff, seen | {s}, depth + 1)
+                    go(s, eff, seen | {s}, depth + 1, iters)
         go(start, [], {start}, 0)
         return results
 
